@@ -4,3 +4,4 @@ import Paroxy.Props.C06
 import Paroxy.Props.C07
 import Paroxy.Props.C08
 import Paroxy.Props.C16
+import Paroxy.Props.C17
